@@ -624,6 +624,33 @@ pub fn run_serde_case(b: &SerdeBody) -> SerdeOut {
                     if b.kind == *src && !(q1.eq_q(&q0) && q0.eq_q(&q1)) {
                         return SerdeOut { fail: Some(fail("roundtrip_eq", "deserialize(serialize(q)) != q".into())), outcome: "invalid" };
                     }
+                    // the same through Deserialize::deserialize_in_place (what serde-derived code
+                    // with its in-place option calls) into a queue that holds something else
+                    let mut place = construct(b.kind, Ctor::WithHasher);
+                    for k in 0..(pairs.len() as u32 % 4) {
+                        place.push(Key::new(0xfff0_0000 + k, 9), Prio::new(k as i32));
+                    }
+                    let r = guarded(|| {
+                        let mut d = serde_json::Deserializer::from_str(&text);
+                        match &mut place {
+                            AnyQ::Pq(x) => serde::Deserialize::deserialize_in_place(&mut d, x).map_err(|e| e.to_string()),
+                            AnyQ::Dpq(x) => serde::Deserialize::deserialize_in_place(&mut d, x).map_err(|e| e.to_string()),
+                        }
+                    });
+                    match r {
+                        Err(e) => return panic_fail(e, format!("deserialize_in_place of a queue's own serialization {}", text)),
+                        Ok(Err(e)) => return SerdeOut { fail: Some(fail("roundtrip_err", format!("deserialize_in_place of a queue's own serialization failed: {} ({})", e, text))), outcome: "invalid" },
+                        Ok(Ok(())) => {
+                            let mut c = place.contents();
+                            c.sort();
+                            if c != a {
+                                return SerdeOut { fail: Some(fail("roundtrip_contents", format!("deserialize_in_place into a queue that held other elements gives {:?}, the serialized queue holds {:?}", c, a))), outcome: "invalid" };
+                            }
+                            if let Some((c, m)) = validity(&place) {
+                                return SerdeOut { fail: Some(fail(c, format!("deserialize_in_place of {}: {}", text, m))), outcome: "invalid" };
+                            }
+                        }
+                    }
                 }
             }
             // then the storage faults
